@@ -92,6 +92,12 @@ def _configs():
         for st in ({"TIMEZONE": "Asia/Tokyo", "TO_TIMEZONE": "UTC"}, {"TIMEZONE": "-1200", "TO_TIMEZONE": "+1400"},
                    {"TIMEZONE": "America/New_York"}, {"TO_TIMEZONE": "Pacific/Kiritimati", "RETURN_AS_TIMEZONE_AWARE": True}):
             add("formats=%s,%s" % (f, sorted(st.items())), st, languages=["en"], date_formats=f)
+    # partial formats (day and/or month missing) with an extreme, possibly zone-aware, reference time and a TIMEZONE / TO_TIMEZONE far from it
+    for f in (["%B %Y"], ["%Y"], ["%d.%Y"], ["%H:%M"], ["%B"], ["%d %B"]):
+        for bn in ("min", "max", "aware-max", "aware-min", "aware+14"):
+            for st in ({"TIMEZONE": "Asia/Tokyo"}, {"TIMEZONE": "America/New_York"}, {"TIMEZONE": "+1400", "TO_TIMEZONE": "-1200"}, {"TO_TIMEZONE": "Pacific/Kiritimati"},
+                       {"PREFER_DAY_OF_MONTH": "last", "PREFER_MONTH_OF_YEAR": "last", "TIMEZONE": "-1200"}, {}):
+                add("formats=%s,BASE=%s,%s" % (f, bn, sorted(st.items())), dict(st, RELATIVE_BASE=BASES[bn]), languages=["en"], date_formats=f)
     for zone, days in (("America/New_York", [(2021, 3, 14), (2021, 11, 7)]), ("Europe/London", [(2021, 3, 28), (2021, 10, 31)]),
                        ("Australia/Lord_Howe", [(2021, 4, 4), (2021, 10, 3)]), ("America/Sao_Paulo", [(2018, 11, 4), (2019, 2, 16)])):
         for (y, m, d) in days:
@@ -195,7 +201,9 @@ def spaces(tier, seed):
                       note="clock times around the gap/overlap hour with a DST zone as TIMEZONE and the reference on a transition day"))
     fmt_cfgs = [i for i, (n, _) in enumerate(CONFIGS) if n.startswith("formats=")]
     sp.append(Product("formats-at-range-ends", {"fs": ["1 Jan 0001", "31 Dec 9999", "0001-01-01 00:00", "9999-12-31 23:59", "01/01/0001", "31/12/9999",
-                                                       "1 Jan 0001 00:00", "29 Feb 2023", "31 Dec 9999 23:59 +1400"], "cfg": fmt_cfgs}))
+                                                       "1 Jan 0001 00:00", "29 Feb 2023", "31 Dec 9999 23:59 +1400", "March 2015", "December 9999", "January 0001",
+                                                       "2015", "9999", "0001", "31.9999", "01.0001", "10:30", "23:59", "March", "December", "31 December", "1 January"],
+                                                "cfg": fmt_cfgs}))
     sp.append(Listed("language-vocabulary", lang_tokens()))
     sp.append(Product("autodetect", {"prefix": [""], "date": DATES, "sep1": [" "], "time": ["", "23:59", "1.2.3"], "sep2": [" "],
                                      "zone": ["", "+1400", "EST"], "suffix": ["", "."], "cfg": [-1]},
